@@ -217,4 +217,58 @@ theorem revalidation_witness :
     (validateFrom Impl.current (gDirect none) (validateFrom Impl.current (gDirect none) [] 0).2 0).1 = .ok ∧
     (validateFrom Impl.repaired (gDirect none) (validateFrom Impl.repaired (gDirect none) [] 0).2 0).1 = .missing := by decide
 
+/-! ### Histories of assignments and submit attempts over shared objects -/
+
+/-- **The second sentence for every history** (several `submit` attempts and assignments over the same
+    objects: a rejected task reused as a parameter value of another task — possible because `submit` stores
+    `job` before validating —, an accepted task reused, a sub-configuration completed between two
+    attempts, …), provided a validation that raises clears the flags it has set: starting from trustworthy
+    flags (fresh objects), with assignments going only to objects that no successful validation has flagged
+    (those are sealed), every accepted `submit` had no node with a missing required value reachable along
+    the walk *at that moment*; an operation that is not an accepted `submit` leaves the scheduler registry
+    unchanged and an accepted one adds exactly the submitted task. -/
+theorem history_sound (I : Impl) (hI : I.resetOnFail = true) (s : HState) (ops : List HOp)
+    (h0 : FlagsOk I s.g s.flags) (hadm : Admissible I s ops) :
+    ∀ t ∈ hrun I s ops,
+      (∀ n, t.2.1 = .submit n → t.2.2 = .accepted → ∀ m, Reach (succs I t.1.g) n m → nodeMissing t.1.g m = false) ∧
+      (t.2.2 ≠ .accepted → (hstep I t.1 t.2.1).2.registry = t.1.registry) ∧
+      (∀ n, t.2.1 = .submit n → t.2.2 = .accepted → (hstep I t.1 t.2.1).2.registry = n :: t.1.registry) :=
+  hrun_sound I hI ops s h0 hadm
+
+/-- **… "is rejected at submission, before any job is registered", at any point of a history**: with the
+    walk descending into lists and dicts, a `submit` of a task from which a node with a missing required
+    value is reachable (through values, lists, dicts, nested configurations *and tasks*, pre-tasks, init
+    tasks) is not accepted and leaves the registry as it was, whatever happened to these objects before. -/
+theorem history_rejects_missing (I : Impl) (hD : I.deepValidate = true) (s : HState) (h0 : FlagsOk I s.g s.flags)
+    (n m : Nat) (hr : Reach (allSuccs s.g) n m) (hm : nodeMissing s.g m = true) :
+    (hstep I s (.submit n)).1 ≠ .accepted ∧ (hstep I s (.submit n)).2.registry = s.registry := by
+  have hs := hstep_sound I s (.submit n) h0 (by intro _ _ _ h; cases h)
+  have hna : (hstep I s (.submit n)).1 ≠ .accepted := by
+    intro ha
+    have := hs.2.1 n rfl ha m (by rw [succs_deep I hD]; exact hr)
+    rw [hm] at this
+    exact absurd this (by simp)
+  exact ⟨hna, hs.2.2.1 hna⟩
+
+/-- a history of the seeded kind: task `P` (node 1, class 1) misses its required `corpus: Param[Path]`;
+    `P.submit()` is rejected and keeps its `job`; `T(data=P)` (node 0), then `T2(datasets=[P])` (node 2) are
+    rejected and nothing is registered; after `P.corpus = …` a new `T3(data=P)` (node 3) is accepted and is
+    the only registered job; submitting `P` again raises "already submitted"; a task that never went
+    through `submit()` (node 4) cannot be given as a value. -/
+def hP : HState :=
+  { g := { classes := [[{ ty := .cfg 1 }], [{ ty := .path }, { ty := .int, hasDefault := true }], [{ ty := .list (.cfg 1) }]]
+           tasks := [0, 1, 2]
+           nodes := [{ cls := 0, vals := [none] }, { cls := 1, vals := [none, none] }, { cls := 2, vals := [none] },
+                     { cls := 0, vals := [none] }, { cls := 1, vals := [none, none] }] } }
+
+def hOps : List HOp :=
+  [.assign 0 0 (.config [1] 4), .submit 1, .assign 0 0 (.config [1] 1), .submit 0, .assign 2 0 (.list [.config [1] 1]), .submit 2,
+   .assign 1 0 (.path "c"), .assign 3 0 (.config [1] 1), .submit 3, .submit 1, .assign 3 0 (.config [1] 1)]
+
+theorem rejected_task_reuse_history :
+    (hrun Impl.repaired hP hOps).map (·.2.2) =
+      [.invalid, .rejected .missing, .stored, .rejected .missing, .stored, .rejected .missing,
+       .stored, .stored, .accepted, .already, .readonly] ∧
+    ((hrun Impl.repaired hP hOps).map (·.1.registry)).getLast? = some [3] := by decide
+
 end XpmVerif.C15
